@@ -2,7 +2,8 @@
  *
  *   VERIF_CONNECT_SCRIPT = "a.b.c.d=hang;a.b.c.e=refuse:2;..."     (addresses not listed: the real connect)
  *     hang       block until a signal handler has run, then fail with EINTR (what connect() to a host that
- *                drops SYNs does when the watchdog's SIGALRM arrives); every call blocks again
+ *                drops SYNs does when the watchdog's SIGALRM arrives); every call blocks again; if the SIGALRM
+ *                handler was installed with SA_RESTART the call goes on blocking, as the kernel's would
  *     refuse:D   fail with ECONNREFUSED, D seconds after the call (interruptible: EINTR if a signal arrives first)
  *   VERIF_CONNECT_LOG    = file; one line "connect <addr> <hang|refuse|real>" per call (optional)
  *
@@ -13,6 +14,7 @@
 #include <errno.h>
 #include <fcntl.h>
 #include <netinet/in.h>
+#include <signal.h>
 #include <stdio.h>
 #include <stdlib.h>
 #include <string.h>
@@ -48,7 +50,16 @@ int connect(int fd, const struct sockaddr *sa, socklen_t len)
             p += strlen(key);
             if (strncmp(p, "hang", 4) == 0) {
                 logline(addr, "hang");
-                pause();                        /* returns only after a signal handler has run */
+                for (;;) {
+                    struct sigaction sa;
+                    pause();                    /* returns only after a signal handler has run */
+                    /* what the kernel does with a blocked connect(): if the handler was installed with SA_RESTART
+                     * the call is restarted and the caller never sees the signal; otherwise it fails with EINTR.
+                     * (SIGALRM is the signal pdsh's watchdog uses to interrupt a worker.) */
+                    if (sigaction(SIGALRM, NULL, &sa) == 0 && (sa.sa_flags & SA_RESTART))
+                        continue;
+                    break;
+                }
                 errno = EINTR;
                 return -1;
             }
